@@ -44,16 +44,47 @@ struct StreamGen {
     phase: usize,
     /// BTOR2 line mix: 0 mixed, 1 symbol+comment on every line, 2 comment lines + symbol-only nodes
     btor_profile: u8,
+    /// DIMACS stream shape: 0 clauses only (clause count unspecified); 1 declared clause count, all
+    /// clauses, then a long tail of comment / blank lines; 2 a long prelude of comment / blank lines
+    /// in front of the header; 3 clauses split over lines around comments, and blocks of thousands of
+    /// comment / blank lines between clauses
+    dimacs_profile: u8,
+    /// profile 1: the declared number of clauses
+    n_declared: u64,
+    filler_left: u64,
+    filler_no: u64,
     max_item: Rc<Cell<u64>>,
 }
 
 impl StreamGen {
+    /// one comment or blank line (never an item)
+    fn filler(&mut self, out: &mut Vec<u8>) {
+        use std::io::Write;
+        self.filler_no += 1;
+        let _ = match self.filler_no % 5 {
+            0 => writeln!(out),
+            1 => writeln!(out, "c"),
+            2 => writeln!(out, "c filler line {} of a tool that talks a lot", self.filler_no),
+            3 => writeln!(out, "c 1 2 3 0"),
+            _ => writeln!(out, "c {}", self.filler_no),
+        };
+    }
+
     fn line(&mut self, out: &mut Vec<u8>) {
         use std::io::Write;
         let start = out.len();
         let k = self.k;
         self.k += 1;
         match self.fmt {
+            Fmt::Cnf if self.dimacs_profile == 3 && k % 3 == 0 => {
+                let _ = writeln!(out, "{} -{}\nc inside {}\n\n {} 0", 1 + k % 97, 1 + (k * 7) % 1013, k, 1 + (k * 13) % 65521);
+            }
+            Fmt::Wcnf if self.dimacs_profile == 3 && k % 3 == 0 => {
+                let _ = writeln!(out, "{}\nc inside {}\n{} -{}\n0", 1 + k % 9, k, 1 + k % 97, 1 + (k * 7) % 1013);
+            }
+            Fmt::Gcnf if self.dimacs_profile == 3 && k % 3 == 0 => {
+                let _ = writeln!(out, "{{{}}}\nc inside {}\n{} -{}\n\n0", k % 5, k, 1 + k % 97, 1 + (k * 7) % 1013);
+            }
             Fmt::Cnf => {
                 let _ = writeln!(out, "{} -{} {} 0", 1 + k % 97, 1 + (k * 7) % 1013, 1 + (k * 13) % 65521);
             }
@@ -124,12 +155,28 @@ impl StreamGen {
     fn fill(&mut self, out: &mut Vec<u8>) -> bool {
         use std::io::Write;
         let cap = 4096;
+        let dimacs = matches!(self.fmt, Fmt::Cnf | Fmt::Wcnf | Fmt::Gcnf);
+        if dimacs && !self.header_done && self.dimacs_profile == 2 && self.emitted < self.target / 2 {
+            // prelude of comment / blank lines in front of the header
+            while out.len() + 64 < cap {
+                self.filler(out);
+            }
+            self.emitted += out.len() as u64;
+            return true;
+        }
         if !self.header_done {
             self.header_done = true;
+            let n = if self.dimacs_profile == 1 { self.n_declared } else { 0 };
             match self.fmt {
-                Fmt::Cnf => out.extend_from_slice(b"c generated\np cnf 65521 0\n"),
-                Fmt::Wcnf => out.extend_from_slice(b"p wcnf 1013 0 10\n"),
-                Fmt::Gcnf => out.extend_from_slice(b"p gcnf 1013 0 4\n"),
+                Fmt::Cnf => {
+                    let _ = write!(out, "c generated\np cnf 65521 {}\n", n);
+                }
+                Fmt::Wcnf => {
+                    let _ = write!(out, "p wcnf 1013 {} 10\n", n);
+                }
+                Fmt::Gcnf => {
+                    let _ = write!(out, "p gcnf 1013 {} 4\n", n);
+                }
                 Fmt::Btor2 => out.extend_from_slice(b"1 sort bitvec 8\n"),
                 Fmt::Aag | Fmt::Aig => {
                     let c = self.sect;
@@ -177,9 +224,24 @@ impl StreamGen {
                     self.emitted += out.len() as u64;
                     return false;
                 }
-            } else if self.emitted + out.len() as u64 >= self.target {
+            } else if self.emitted + out.len() as u64 >= self.target && !(dimacs && self.dimacs_profile == 1 && self.k < self.n_declared) {
                 self.emitted += out.len() as u64;
                 return false;
+            }
+            if dimacs && self.dimacs_profile == 1 && self.k >= self.n_declared {
+                // all declared clauses are out: comment / blank lines up to the end of the stream
+                self.filler(out);
+                continue;
+            }
+            if dimacs && self.dimacs_profile == 3 {
+                if self.filler_left > 0 {
+                    self.filler_left -= 1;
+                    self.filler(out);
+                    continue;
+                }
+                if self.k % 1000 == 999 {
+                    self.filler_left = 3000;
+                }
             }
             if self.big > 0 && !self.big_done && !item_based && self.emitted + out.len() as u64 > 65536 {
                 self.big_done = true;
@@ -449,6 +511,7 @@ impl Monitor for C10 {
             }
             _ => (0, 0),
         };
+        let dimacs_profile = (((idx / 6) + (idx / 24) + (idx / 96)) % 4) as u8;
         let mut g = StreamGen {
             fmt,
             target,
@@ -463,6 +526,10 @@ impl Monitor for C10 {
             sect,
             phase: 0,
             btor_profile: ((idx / 6) % 3) as u8,
+            dimacs_profile,
+            n_declared: target / 2 / 16,
+            filler_left: 0,
+            filler_no: 0,
             max_item: max_item.clone(),
         };
         let calls = Rc::new(Cell::new(0u64));
@@ -491,6 +558,13 @@ impl Monitor for C10 {
         rep.inc(&format!("format:{:?}", fmt));
         if fmt == Fmt::Btor2 {
             rep.inc(&format!("btor_profile:{}", (idx / 6) % 3));
+        }
+        if matches!(fmt, Fmt::Cnf | Fmt::Wcnf | Fmt::Gcnf) {
+            rep.inc(&format!(
+                "dimacs_profile:{}",
+                ["clauses_only", "declared_count_then_comment_tail", "comment_prelude_before_header", "split_clauses_and_comment_blocks"]
+                    [dimacs_profile as usize]
+            ));
         }
         if matches!(fmt, Fmt::Aag | Fmt::Aig) {
             rep.inc(&format!(
